@@ -5,15 +5,21 @@
 (*   ChooseFirst/Second  every two-field dtype over a 6-type sub-catalogue x 4 shapes     *)
 (*                       x byte orders (mixed orders included)                            *)
 (*   SimAddField/SimDone random 3..MaxFields-field dtypes (tlc -simulate)                 *)
+(*   ChooseBig           tables just above 2^24 / 2^25 bytes with row sizes 3, 12, 20, 24  *)
+(*                       (not dividing a power of two) and 8, 16 (dividing it)            *)
 (*   ChooseIO / SimIO    writer entry point, row count in RowCounts, memory layout of the  *)
 (*                       array argument, header id (crossed when CrossIO - layouts for    *)
-(*                       the one-field dtypes -, else chosen by a covering rule)          *)
+(*                       the one-field dtypes -, else chosen by a covering rule); a user   *)
+(*                       header key that looks like a reserved name (delim, SIZE, Dtype,  *)
+(*                       nrows, shape, has_fields, version x letter case x value kind)    *)
 (*  Behaviour (checked, not exported): DoWrite, then DoRead through every reading entry   *)
 (*  point in turn, then Rewrite (another entry point overwrites the path with a different *)
 (*  table) and DoRead again.  Invariants: ReadInv, SizeInv, CrossEntry, LastWriteWins.    *)
 EXTENDS BinRoundTrip, Json
 
-CONSTANTS RowCounts,    \* e.g. {1, 2, 5}
+CONSTANTS BigItems,     \* row sizes (bytes) of the big tables: subset of {3, 8, 12, 16, 20, 24}
+          BigExps,      \* their sizes: just above 2^e bytes, e in BigExps (subset of {24, 25})
+          RowCounts,    \* e.g. {1, 2, 5}
           NHdr,         \* header ids 0..NHdr-1 (0 = no header argument); the harness owns the catalogue
           CrossIO,      \* TRUE: writer x row count crossed for every dtype
           MaxFields,    \* simulation: up to this many fields
@@ -38,8 +44,19 @@ Fld(nm, k, sh, o) == [name |-> nm, kind |-> k[1], size |-> k[2], shape |-> sh, o
 Pick(s, i) == s[(i % Len(s)) + 1]
 
 LayoutSeq == <<"contig", "step2", "reversed", "column2d", "zerod">>
-NoCase == [src |-> "none", writer |-> "none", layout |-> "contig", descr |-> <<>>, nrows |-> 0, hid |-> 0]
-NoTable == [descr |-> <<>>, rows |-> <<>>]
+\* user header keys that look like reserved names (the reserved name without its underscore, in any letter case);
+\* they are ordinary user keys.  lc: lower / upper / capitalised; val: a value of the type the reserved entry has
+\* ("plausible") or a short text.  "none": no such key.
+UNames == <<"none", "delim", "size", "none", "dtype", "version", "none", "nrows", "shape", "has_fields">>
+UCases == <<"lower", "upper", "cap">>
+UVals  == <<"plausible", "text">>
+NoUKey == [name |-> "none", lc |-> "lower", val |-> "text"]
+UKey(u) == IF Pick(UNames, u) = "none" THEN NoUKey
+           ELSE [name |-> Pick(UNames, u), lc |-> Pick(UCases, u \div 2), val |-> Pick(UVals, u \div 3)]
+
+NoCase == [src |-> "none", writer |-> "none", layout |-> "contig", descr |-> <<>>, nrows |-> 0, n |-> 0, block |-> 1,
+           hid |-> 0, ukey |-> NoUKey]
+NoTable == [descr |-> <<>>, rows |-> <<>>, n |-> 0, block |-> 1]
 
 Init == /\ BRInit
         /\ phase = "start" /\ src = "none" /\ d = <<>> /\ c = NoCase /\ gen = 0 /\ ridx = 0 /\ seen = {} /\ last = NoTable
@@ -85,8 +102,9 @@ Mix == VSum([i \in DOMAIN d |-> i * (d[i].size + 3 * Len(d[i].shape) + (IF d[i].
 
 \* a 0-d array has one row
 Lay(n, l) == IF l = "zerod" /\ n # 1 THEN "contig" ELSE l
-MkCase(w, n, h, l) == [src |-> src, writer |-> w, layout |-> Lay(n, l), descr |-> d, nrows |-> n,
-                       hid |-> IF w \in RawWriters THEN 0 ELSE h]
+MkCase(w, n, h, l) == [src |-> src, writer |-> w, layout |-> Lay(n, l), descr |-> d, nrows |-> n, n |-> n, block |-> 1,
+                       hid |-> IF w \in RawWriters THEN 0 ELSE h,
+                       ukey |-> IF w \in RawWriters THEN NoUKey ELSE UKey(Mix + 3 * h + n)]
 
 \* CrossIO: writer x row count crossed for every dtype, and x memory layout for the one-field dtypes
 ChooseIO ==
@@ -105,9 +123,34 @@ SimIO ==
           c' = MkCase(WriterSeq[wi], RowSeq[ri], h, LayoutSeq[li])
     /\ phase' = "case" /\ UNCHANGED <<file, res, src, d, gen, ridx, seen, last>>
 
+\* ---- big tables: rows x row size just above 2^24 / 2^25 bytes, row sizes that do and do not divide a power of two.
+\* A row token stands for a block of rows (about 32 blocks per table).
+RECURSIVE Pow2(_)
+Pow2(k) == IF k = 0 THEN 1 ELSE 2 * Pow2(k - 1)
+BigDescr(isz) ==
+    CASE isz = 3  -> <<Fld("tag", <<"S", 3>>, <<>>, "na")>>
+      [] isz = 8  -> <<Fld("x", <<"f", 8>>, <<>>, "lt")>>
+      [] isz = 12 -> <<Fld("id", <<"i", 4>>, <<>>, "lt"), Fld("x", <<"f", 8>>, <<>>, "lt")>>
+      [] isz = 16 -> <<Fld("z", <<"c", 16>>, <<>>, "gt")>>
+      [] isz = 20 -> <<Fld("id", <<"i", 4>>, <<>>, "gt"), Fld("v", <<"f", 8>>, <<2>>, "lt")>>
+      [] isz = 24 -> <<Fld("z", <<"c", 16>>, <<>>, "lt"), Fld("END", <<"f", 8>>, <<>>, "gt")>>
+ChooseBig ==
+    /\ phase = "start"
+    /\ \E isz \in BigItems, e \in BigExps :
+       \E wi \in (IF CrossIO THEN DOMAIN WriterSeq ELSE {((isz + e) % Len(WriterSeq)) + 1}) :
+          LET n == (Pow2(e) \div isz) + 1000
+              b == (n + 31) \div 32
+              w == WriterSeq[wi]
+          IN /\ d' = BigDescr(isz)
+             /\ c' = [src |-> "big", writer |-> w, layout |-> "contig", descr |-> BigDescr(isz),
+                      nrows |-> (n + b - 1) \div b, n |-> n, block |-> b,
+                      hid |-> IF w \in RawWriters THEN 0 ELSE (isz + e + wi) % NHdr, ukey |-> NoUKey]
+    /\ phase' = "case" /\ src' = "big" /\ UNCHANGED <<file, res, gen, ridx, seen, last>>
+
 \* ---- the behaviour of one case -----------------------------------------------------------------------
-Table(cc)  == [descr |-> cc.descr, rows |-> [i \in 1..cc.nrows |-> i]]
-HdrEnts(cc) == IF cc.hid = 0 THEN <<>> ELSE <<[k |-> 1, v |-> cc.hid, reserved |-> FALSE]>>
+Table(cc)  == [descr |-> cc.descr, rows |-> [i \in 1..cc.nrows |-> i], n |-> cc.n, block |-> cc.block]
+HdrEnts(cc) == (IF cc.hid = 0 THEN <<>> ELSE <<[k |-> 1, v |-> cc.hid, reserved |-> FALSE]>>)
+               \o (IF cc.ukey.name = "none" THEN <<>> ELSE <<[k |-> 2, v |-> 1, reserved |-> FALSE]>>)
 HLen(cc)   == IF cc.writer \in RawWriters THEN 0 ELSE 97 + 3 * cc.hid
 
 DoWrite ==
@@ -120,7 +163,7 @@ DoRead ==
     /\ phase = "written" /\ ridx < Len(ReaderSeq)
     /\ Read(ReaderSeq[ridx + 1])
     /\ ridx' = ridx + 1
-    /\ seen' = IF res'.err = "none" THEN seen \cup {[descr |-> res'.descr, rows |-> res'.rows]} ELSE seen
+    /\ seen' = IF res'.err = "none" THEN seen \cup {[descr |-> res'.descr, rows |-> res'.rows, n |-> res'.n, block |-> file.block]} ELSE seen
     /\ UNCHANGED <<phase, src, d, c, gen, last>>
 
 \* another entry point overwrites the same path with a different table (fields and rows reversed, no header)
@@ -128,14 +171,14 @@ Reversed(s) == [i \in DOMAIN s |-> s[Len(s) + 1 - i]]
 Rewrite ==
     /\ phase = "written" /\ ridx = Len(ReaderSeq) /\ gen = 1
     /\ LET w == Pick(WriterSeq, Mix + c.nrows + 1)
-           t == [descr |-> Reversed(c.descr), rows |-> Reversed(Table(c).rows) \o <<c.nrows + 1>>]
+           t == [descr |-> Reversed(c.descr), rows |-> Reversed(Table(c).rows) \o <<c.nrows + 1>>, n |-> c.nrows + 1, block |-> 1]
        IN /\ Write(w, t, <<>>, IF w \in RawWriters THEN 0 ELSE 61, Pick(<<"reversed", "step2", "column2d", "contig">>, Mix))
           /\ last' = t
     /\ gen' = 2 /\ ridx' = 0 /\ seen' = {}
     /\ UNCHANGED <<phase, src, d, c>>
 
-Next == ChooseSingle \/ ChooseFirst \/ ChooseSecond \/ ChooseIO \/ DoWrite \/ DoRead \/ Rewrite
-NextExport == ChooseSingle \/ ChooseFirst \/ ChooseSecond \/ ChooseIO
+Next == ChooseSingle \/ ChooseFirst \/ ChooseSecond \/ ChooseIO \/ ChooseBig \/ DoWrite \/ DoRead \/ Rewrite
+NextExport == ChooseSingle \/ ChooseFirst \/ ChooseSecond \/ ChooseIO \/ ChooseBig
 \* simulation prints the case of the behaviour that was actually taken (a CONSTRAINT would see every candidate successor)
 SimEmit ==
     /\ phase = "case" /\ src = "sim"
@@ -149,10 +192,15 @@ Spec == Init /\ [][Next]_vars
 \* cross-entry agreement: whatever entry point wrote, every reader that is constrained returned the same table
 CrossEntry == Cardinality(seen) <= 1 /\ (\A s \in seen : s = last)
 LastWriteWins == phase = "written" => (file.descr = last.descr /\ file.rows = last.rows)
-CasesInScope == phase = "case" => (/\ DescrOK(c.descr) /\ c.writer \in Writers /\ c.nrows \in RowCounts /\ c.hid \in 0..(NHdr - 1)
-                                   /\ c.layout \in Layouts /\ (c.layout = "zerod" => c.nrows = 1))
+CasesInScope == phase = "case" => (/\ DescrOK(c.descr) /\ c.writer \in Writers /\ c.hid \in 0..(NHdr - 1)
+                                   /\ TableOK(Table(c))
+                                   /\ (c.src # "big") => (c.nrows \in RowCounts /\ c.n = c.nrows /\ c.block = 1)
+                                   /\ (c.src = "big") => (\E e \in BigExps : /\ c.n * ItemSize(c.descr) > Pow2(e)
+                                                                               /\ c.n * ItemSize(c.descr) < Pow2(e) + Pow2(16))
+                                   /\ (c.writer \in RawWriters) => (c.hid = 0 /\ c.ukey = NoUKey)
+                                   /\ c.layout \in Layouts /\ (c.layout = "zerod" => c.n = 1))
 \* the file written does not depend on the memory layout of the array argument
-LayoutIndependent == phase = "written" => (file.rows = last.rows /\ file.descr = last.descr /\ Len(file.rows) = Len(last.rows))
+LayoutIndependent == phase = "written" => (file.rows = last.rows /\ file.descr = last.descr /\ file.n = last.n)
 
 \* ---- export -------------------------------------------------------------------------------------------------
 Export == (DoExport /\ phase = "case") => PrintT(<<"CASE", ToJson(c)>>)
